@@ -47,6 +47,7 @@ class Ctl:
         self.raised = []
         self.budget = None  # optional: raise SimInterrupt at the k-th seam call
         self.sink = None  # optional: list shared with recording arrays (C04)
+        self.columns = False  # record the whole column of period t before/after every seam call (C17)
 
     def arm(self, plan):
         self.plan = plan or {}
@@ -151,6 +152,14 @@ def _hook_action(self, t, act):
     raise AssertionError(kind)
 
 
+def _column(d, t):
+    out = {}
+    for nm in d['names']:
+        v = d['_' + nm][t]
+        out[nm] = float(v) if isinstance(v, (float, int, np.floating, np.integer)) else str(v)
+    return out
+
+
 def _filter_mode():
     f = warnings.filters
     return f[0][0] if f else None
@@ -181,6 +190,7 @@ def make_scripted(fsic, spec, bases=None, extra_attrs=None):
             'errors': kw.get('errors'),
             'cfe': kw.get('catch_first_error'),
             'pre': [float(d['_' + nm][t]) for nm in endo],
+            'pre_all': _column(d, t) if ctl.columns else None,
             'filter': _filter_mode(),
             'exc': None,
         }
@@ -210,6 +220,8 @@ def make_scripted(fsic, spec, bases=None, extra_attrs=None):
         finally:
             rec['post_endo'] = [float(d['_' + nm][t]) for nm in endo]
             rec['post'] = [float(d['_' + nm][t]) for nm in check]
+            if ctl.columns:
+                rec['post_all'] = _column(d, t)
 
     def solve_t_before(self, t, **kw):
         seam_call(self, 'before', t, kw)
@@ -270,6 +282,7 @@ def make_probed(fsic, base_cls, check=None):
             'errors': kw.get('errors'),
             'cfe': kw.get('catch_first_error'),
             'pre': [float(d['_' + nm][t]) for nm in endo] if -n <= t < n else None,
+            'pre_all': _column(d, t) if (ctl.columns and -n <= t < n) else None,
             'filter': _filter_mode(),
             'exc': None,
             'act': 'real',
@@ -295,6 +308,8 @@ def make_probed(fsic, base_cls, check=None):
             if -n <= t < n:
                 rec['post_endo'] = [float(d['_' + nm][t]) for nm in endo]
                 rec['post'] = [float(d['_' + nm][t]) for nm in chk]
+                if ctl.columns:
+                    rec['post_all'] = _column(d, t)
 
     def solve_t_before(self, t, **kw):
         log_call(self, 'before', t, kw, base_cls.solve_t_before)
